@@ -20,6 +20,14 @@ Theorem C17_canonical_unique : forall l1 l2, SInc l1 -> SInc l2 ->
 Proof. exact SInc_unique. Qed.
 Print Assumptions C17_canonical_unique.
 
+Example C17_canonical_unique_nonvacuous :
+  SInc [-1; 4; 9] /\ ~ SInc [4; 4] /\ (forall x, In x [4; 4] <-> In x [4]).
+Proof.
+  split; [sinc|]. split.
+  - intros H. apply SInc_inv in H. destruct H as [_ H]. specialize (H 4 (or_introl eq_refl)). discriminate H.
+  - intros x. simpl. tauto.
+Qed.
+
 (* ---------------------------------------------------------------- NewSortedInts *)
 Theorem C17_new_sorted_ints : forall xs,
   exists r, new_sorted_ints xs = Ret r /\ SInc r /\ forall z, In z r <-> In z xs.
@@ -97,6 +105,29 @@ Proof.
   split; [repeat constructor; simpl; sinc|vm_compute; reflexivity].
 Qed.
 
+(* ---------------------------------------------------------------- which cells the mutators touch *)
+(* Remove writes only the cells from the position of x up to (not including) the old last cell of
+   the receiver's own array (its length is kept by [C17_remove]).  Add builds its value in a fresh
+   array without spare capacity.  For the Union method see [C17_union_method] (in place: only cells
+   below the new length change).  The arguments b / xs are separate values that the models never
+   write: there is no write to them in [um_loop], [add_back], [remove_m]. *)
+Theorem C17_remove_frame : forall s x, wf s ->
+  let i := search_ints (view s) x in
+  firstn i (fst (remove_m s x)) = firstn i (fst s) /\
+  skipn (snd s - 1) (fst (remove_m s x)) = skipn (snd s - 1) (fst s).
+Proof. exact remove_m_frame. Qed.
+Print Assumptions C17_remove_frame.
+
+Theorem C17_add_fresh : forall s xs s', add_m s xs = Ret s' ->
+  fst s' = view s' /\ snd s' = length (fst s').
+Proof. exact add_m_fresh. Qed.
+Print Assumptions C17_add_fresh.
+
+Example C17_frames_nonvacuous :
+  remove_m ([1; 4; 6; 9; 77; 78], 4%nat) 4 = ([1; 6; 9; 9; 77; 78], 3%nat) /\
+  add_m ([1; 4; 6; 77; 78], 3%nat) [5; 4] = Ret ([1; 4; 5; 6], 4%nat).
+Proof. split; vm_compute; reflexivity. Qed.
+
 (* ---------------------------------------------------------------- the binary functions *)
 Theorem C17_union : forall a b, SInc a -> SInc b ->
   exists r, union a b = Ret r /\ SInc r /\ forall z, In z r <-> In z a \/ In z b.
@@ -142,18 +173,17 @@ Example C17_xor_nonvacuous : xor [-3; 1; 5; 9] [1; 2; 9; 11] = Ret [-3; 2; 5; 11
 Proof. vm_compute. reflexivity. Qed.
 
 (* ---------------------------------------------------------------- Complement *)
-(* Complement(n, a) panics exactly when len(a) > n (negative capacity in make), whatever the
-   elements of a are; otherwise it returns {0..n-1} \ a. *)
+(* every n (also n <= 0) and every strictly increasing a (elements may lie outside 0..n-1, a may
+   be longer than n): no panic, the result is {0..n-1} \ a *)
 Theorem C17_complement : forall n a, SInc a ->
-  (len a > n -> complement n a = Panic) /\
-  (len a <= n -> exists r, complement n a = Ret r /\ SInc r /\
-                           forall z, In z r <-> (0 <= z < n /\ ~ In z a)).
+  exists r, complement n a = Ret r /\ SInc r /\ forall z, In z r <-> (0 <= z < n /\ ~ In z a).
 Proof. exact complement_spec. Qed.
 Print Assumptions C17_complement.
 
 Example C17_complement_nonvacuous :
-  complement 6 [-1; 2; 3; 8] = Ret [0; 1; 4; 5] /\ complement 2 [5; 6; 7] = Panic.
-Proof. split; vm_compute; reflexivity. Qed.
+  complement 6 [-1; 2; 3; 8] = Ret [0; 1; 4; 5] /\ complement 2 [5; 6; 7] = Ret [0; 1] /\
+  complement 0 [-3; 0] = Ret [] /\ complement (-4) [1] = Ret [].
+Proof. repeat split; vm_compute; reflexivity. Qed.
 
 (* ---------------------------------------------------------------- ContainsSingle / ContainsSorted *)
 Theorem C17_contains_single : forall a x, SInc a -> (contains_single a x = true <-> In x a).
@@ -245,6 +275,13 @@ Theorem C17_heap_sort : forall d a b, 0 <= a <= b -> b <= len d ->
              sorted_seg d' a b /\ same_out d d' a b.
 Proof. exact heap_sort_ok. Qed.
 Print Assumptions C17_heap_sort.
+
+Example C17_quick_sort_nonvacuous :
+  quick_sort 14 [8; 3; 11; 3; 7; 1; 9; 2; 12; 6; 4; 10; 5; 0] 0 14 8 =
+    Ret [0; 1; 2; 3; 3; 4; 5; 6; 7; 8; 9; 10; 11; 12] /\
+  quick_sort 14 [8; 3; 11; 3; 7; 1; 9; 2; 12; 6; 4; 10; 5; 0] 0 14 0 =
+    Ret [0; 1; 2; 3; 3; 4; 5; 6; 7; 8; 9; 10; 11; 12].
+Proof. split; vm_compute; reflexivity. Qed.
 
 Example C17_sort_pieces_nonvacuous :
   heap_sort [99; 5; -2; 9; 5; 0; 7; -50] 1 7 = Ret [99; -2; 0; 5; 5; 7; 9; -50] /\
